@@ -132,9 +132,9 @@ Proof.
   induction f as [|f IH]; intros g c m L L'; [lia|]. destruct g as [|g]; [lia|]. cbn [constraints_outer].
   destruct (look2 c) as [t1 t2]. destruct t1; try reflexivity. destruct t2 as [| | | | | |k|]; try reflexivity.
   destruct k; try reflexivity.
-  destruct (constraints_inner (local_fuel c) (skip 2 c) s [] m) as [[[m' again] c1]| | |] eqn:E; try reflexivity.
+  destruct (constraints_inner (local_fuel c) (skip 1 (skip 1 c)) s [] m) as [[[m' again] c1]| | |] eqn:E; try reflexivity.
   cbn [bind]. destruct again; [|reflexivity].
-  pose proof (constraints_inner_len _ _ _ _ _ _ _ _ E). pose proof (plen_skip 2 c). apply IH; lia.
+  pose proof (constraints_inner_len _ _ _ _ _ _ _ _ E). pose proof (plen_skip 1 c). pose proof (plen_skip 1 (skip 1 c)). apply IH; lia.
 Qed.
 
 Lemma sat_path_loop : forall f g c acc, length (post c) < f -> length (post c) < g ->
@@ -574,10 +574,10 @@ Proof.
   cbv iota beta.
   psims.
   all: first [apply IH; assumption
-             |rewrite (sat_constraints_inner (local_fuel c) (lf2 c c') (skip 2 c)),
-                      (sat_constraints_inner (local_fuel c') (lf2 c c') (skip 2 c'));
+             |rewrite (sat_constraints_inner (local_fuel c) (lf2 c c') (skip 1 (skip 1 c))),
+                      (sat_constraints_inner (local_fuel c') (lf2 c c') (skip 1 (skip 1 c')));
               [apply constraints_inner_rel; rsolve
-              |apply lf_ok; apply plen_skip|apply lf2_r; apply plen_skip|apply lf_ok; apply plen_skip|apply lf2_l; apply plen_skip]].
+              |apply lf_ok; apply plen_skip2|apply lf2_r; apply plen_skip2|apply lf_ok; apply plen_skip2|apply lf2_l; apply plen_skip2]].
 Qed.
 
 Lemma path_loop_rel : forall f c c' acc, R c c' ->
